@@ -103,3 +103,102 @@ fn c20_float_epoch_rejects_nan() {
     kani::cover!(r.is_err());
     core::mem::forget(r);
 }
+
+/// Independent proleptic-Gregorian helpers (days-from-civil after H. Hinnant), on i64.
+fn m_is_leap(y: i64) -> bool {
+    (y % 4 == 0 && y % 100 != 0) || y % 400 == 0
+}
+fn m_days_before_month(y: i64, m: i64) -> i64 {
+    // m in 1..=12
+    let cum = [0, 31, 59, 90, 120, 151, 181, 212, 243, 273, 304, 334];
+    cum[(m - 1) as usize] + if m > 2 && m_is_leap(y) { 1 } else { 0 }
+}
+fn m_days_from_civil(y: i64, m: i64, d: i64) -> i64 {
+    let y = if m <= 2 { y - 1 } else { y };
+    let era = (if y >= 0 { y } else { y - 399 }) / 400;
+    let yoe = y - era * 400;
+    let mp = (m + 9) % 12;
+    let doy = (153 * mp + 2) / 5 + d - 1;
+    let doe = yoe * 365 + yoe / 4 - yoe / 100 + doy;
+    era * 146097 + doe - 719468
+}
+
+fn any_dt() -> Option<(DateTime, i16, i8, i8, i8, i8, i8, i32)> {
+    let (y, mo, d, h, mi, s): (i16, i8, i8, i8, i8, i8) = (kani::any(), kani::any(), kani::any(), kani::any(), kani::any(), kani::any());
+    let ns: i32 = kani::any();
+    DateTime::new(y, mo, d, h, mi, s, ns).ok().map(|dt| (dt, y, mo, d, h, mi, s, ns))
+}
+fn int_at(a: &[MV; 8], k: usize) -> i64 {
+    if let MV::Int(i) = a[k] {
+        i as i64
+    } else {
+        i64::MIN
+    }
+}
+
+//@ tier: attempt
+//@ inst: V = MV
+//@ funcs: time::datetime_to_array::<MV>, jiff::civil::DateTime::{new, year, month, day, hour, minute, second, subsec_nanosecond}
+//@ bounds: every civil date-time jiff accepts (year -9999..=9999; month, day, hour, minute, second, nanosecond symbolic)
+//@ assume: jiff::Error's Display stubbed
+//@ asserts: the first six entries of the broken-down array are [year, month-1, day, hours, minutes, seconds], seconds being an integer when there is no fraction and seconds + ns/10^9 otherwise; no arithmetic overflow (the inverse of array_to_datetime on every accepted date-time)
+#[kani::proof]
+#[kani::unwind(10)]
+#[kani::stub(<jiff::Error as core::fmt::Display>::fmt, no_fmt)]
+fn c20_datetime_to_array_fields() {
+    if let Some((dt, y, mo, d, h, mi, s, ns)) = any_dt() {
+        let a: [MV; 8] = datetime_to_array(dt);
+        assert!(int_at(&a, 0) == y as i64 && int_at(&a, 1) == mo as i64 - 1 && int_at(&a, 2) == d as i64);
+        assert!(int_at(&a, 3) == h as i64 && int_at(&a, 4) == mi as i64);
+        if ns == 0 {
+            assert!(int_at(&a, 5) == s as i64);
+        } else {
+            assert!(matches!(a[5], MV::Float(f) if f == s as f64 + ns as f64 / 1e9));
+        }
+        kani::cover!(mo == 2 && d == 29);
+        kani::cover!(y < 0 && ns > 0);
+        core::mem::forget(a);
+    }
+}
+
+//@ tier: attempt
+//@ inst: V = MV
+//@ funcs: time::datetime_to_array::<MV>, jiff::civil::DateTime::day_of_year
+//@ bounds: every civil date jiff accepts (time of day fixed to 00:00:00)
+//@ assume: jiff::Error's Display stubbed
+//@ asserts: entry 7 is the day of the year from 0, as computed INDEPENDENTLY in the harness (cumulative month lengths + the Gregorian leap-year rule)
+#[kani::proof]
+#[kani::unwind(10)]
+#[kani::stub(<jiff::Error as core::fmt::Display>::fmt, no_fmt)]
+fn c20_datetime_to_array_yday() {
+    let (y, mo, d): (i16, i8, i8) = (kani::any(), kani::any(), kani::any());
+    if let Ok(dt) = DateTime::new(y, mo, d, 0, 0, 0, 0) {
+        let a: [MV; 8] = datetime_to_array(dt);
+        assert!(int_at(&a, 7) == m_days_before_month(y as i64, mo as i64) + d as i64 - 1);
+        kani::cover!(mo == 12 && d == 31 && y % 4 == 0);
+        kani::cover!(mo == 3 && d == 1 && y == 1900);
+        core::mem::forget(a);
+    }
+}
+
+//@ tier: attempt
+//@ inst: V = MV
+//@ funcs: time::datetime_to_array::<MV>, jiff::civil::DateTime::weekday, Weekday::to_sunday_zero_offset
+//@ bounds: every civil date jiff accepts (time of day fixed to 00:00:00)
+//@ assume: jiff::Error's Display stubbed
+//@ asserts: entry 6 is the weekday counted from Sunday, as computed INDEPENDENTLY in the harness (days-from-civil, 1970-01-01 = Thursday)
+#[kani::proof]
+#[kani::unwind(10)]
+#[kani::stub(<jiff::Error as core::fmt::Display>::fmt, no_fmt)]
+fn c20_datetime_to_array_weekday() {
+    let (y, mo, d): (i16, i8, i8) = (kani::any(), kani::any(), kani::any());
+    if let Ok(dt) = DateTime::new(y, mo, d, 0, 0, 0, 0) {
+        let a: [MV; 8] = datetime_to_array(dt);
+        let days = m_days_from_civil(y as i64, mo as i64, d as i64);
+        let wd = ((days % 7) + 7 + 4) % 7;
+        assert!(int_at(&a, 6) == wd);
+        kani::cover!(y == 1970 && mo == 1 && d == 1);
+        kani::cover!(y < 0);
+        core::mem::forget(a);
+    }
+}
